@@ -26,7 +26,7 @@ func init() { register(c05{}) }
 
 const (
 	c05AllocPerByte = 64
-	c05AllocSlack   = 64 << 10
+	c05AllocSlack   = 32 << 10
 	c05HeapSlack    = 64 << 20
 	c05CPUBase      = 2e9 // ns
 	c05CPUPerByte   = 2e3 // ns
@@ -35,7 +35,7 @@ const (
 func (c05) ID() string    { return "C05" }
 func (c05) Level() string { return "exploration" }
 func (c05) Rule() string {
-	return "the hostile corpus of C04 (with its emphasis on truncated, emptied and inconsistent repeated sections and on headers declaring more than they deliver) is decoded by ReadPacket and UnmarshalBinary under a per-call meter: bytes allocated <= 64*L+64KiB, thread CPU time <= 2s+2us*L, live heap growth <= 64*L+64MiB (heap poller, 500us period), every list of a returned packet <= frame length; a call that never returns is caught by the in-worker watchdog on CPU-time evidence. L = max(declared remaining length, bytes supplied). distinct = hash(api, input); non-trivial = the decoder was entered with a complete body"
+	return "the hostile corpus of C04 (with its emphasis on truncated, emptied and inconsistent repeated sections and on headers declaring more than they deliver) is decoded by ReadPacket and UnmarshalBinary under a per-call meter: bytes allocated <= 64*L+32KiB, thread CPU time <= 2s+2us*L, live heap growth <= 64*L+64MiB (heap poller, 500us period), every list of a returned packet <= frame length; a call that never returns is caught by the in-worker watchdog on CPU-time evidence. L = max(declared remaining length, bytes supplied). distinct = hash(api, input); non-trivial = the decoder was entered with a complete body"
 }
 func (c05) Assumptions() []string {
 	return []string{
@@ -80,6 +80,8 @@ func c05Judge(c *run.Ctx, m *mon.Meter, api, T, kind string, L int64, in []byte)
 	}
 	c.Max("alloc_bytes_per_frame_byte/"+api, float64(m.Alloc)/float64(L+1))
 	c.Max("alloc_bytes/"+api, float64(m.Alloc))
+	c.Max("alloc_bytes_beyond_64_per_byte/"+api, float64(int64(m.Alloc)-c05AllocPerByte*L))
+	c.Max("alloc_bytes_beyond_16_per_byte/"+api, float64(int64(m.Alloc)-16*L))
 	c.Max("cpu_ns_per_frame_byte/"+api, float64(m.CPUNano)/float64(L+1))
 	c.Max("cpu_ms/"+api, float64(m.CPUNano)/1e6)
 }
